@@ -7,17 +7,29 @@ import StraxModel.Lemmas.AlignStruct
   the list of `compute` calls and, per dependency, the rows still buffered at the end;
   `strict` = "saved by default" (`save_when > EXPLICIT`).
 
-  All theorems below are PARTIAL-CORRECTNESS statements over ALL inputs: any number of
-  dependencies and kinds, any chunk lists (law-abiding or not), any number of rows.  The only
-  hypotheses are `chunks.length = deps.length` (one iterator per dependency) and, where a
-  statement talks about time, `StartAt T0 chunks` (all dependencies start at `T0`).
-  "The re-trim loop does not run out of its ten passes" is implied by the hypothesis
-  `… = .ok r` (running out is the `RuntimeError` of D9), see `ok_passes_suffice`.
+  `strict` is decided by `saveWhenStrict` from the `save_when` values (max over a dict-valued one).
+
+  Part 1 (`calls_aligned` … `ok_passes_suffice`): PARTIAL-CORRECTNESS statements over ALL inputs: any
+  number of dependencies and kinds, any chunk lists (law-abiding or not), any number of rows.  The only
+  hypotheses are `chunks.length = deps.length` (one iterator per dependency) and, where a statement
+  talks about time, `StartAt T0 chunks` (all dependencies start at `T0`).  "The re-trim loop does not
+  run out of its ten passes" is implied by the hypothesis `… = .ok r` (running out is the
+  `RuntimeError` of D9), see `ok_passes_suffice`.
+
+  Naming: a theorem whose hypotheses cut out part of the property's quantifier ends in `_partial`
+  (`converges_partial`, `converges_no_straddle_partial`, `converges_few_rows_partial`); concrete `decide`
+  witnesses end in `_counterexample` / `_witness`.  `rows_inside_call*`, `last_call_ends_at_run_end`,
+  `calls_tile_run`, `merged_rows_accounting` keep their names (other layers import them): their extra
+  hypotheses are the property's OWN premises made precise, not a restriction of its quantifier —
+  `validInputsB` = "each dependency in a law-abiding chunking" (valid chunks of one run; superrun-annotated
+  chunks are outside this model, see notes), `endAtB` = the property's own case split ("dependencies ending
+  at different times … raise": the same-end case is the one where the run must reach the end),
+  `kindAlignedB` = "same-kind inputs" describe the same rows.  Each docstring says so.
 
   Round 2 (Lemmas/AlignTotal.lean, Lemmas/AlignRun.lean, on top of C07's chunk algebra): validity of
   every intermediate chunk (`rows_inside_call`), the end of the run (`last_call_ends_at_run_end`,
-  `calls_tile_run`) and TOTALITY (`converges_partial`, `converges_few_rows`,
-  `retrim_terminates`).  "Valid law-abiding input" is C07's `Strax.LawAbiding` (good chunks, adjacent,
+  `calls_tile_run`) and TOTALITY (`converges_partial`, `converges_few_rows_partial`, `retrim_terminates`);
+  round 4 (Lemmas/AlignStruct.lean): `converges_no_straddle_partial`.  "Valid law-abiding input" is C07's `Strax.LawAbiding` (good chunks, adjacent,
   one data type and run) as `validInputsB rid chunks`; `endAtB T1 chunks` = all dependencies end at
   `T1`, none with a zero-duration last chunk after other chunks (that chunk is a loud `RuntimeError`, D16).
 
@@ -25,7 +37,7 @@ import StraxModel.Lemmas.AlignStruct
     converges : chunks.length = deps.length → deps ≠ [] → validInputsB rid chunks → StartAt T0 chunks →
                 endAtB T1 chunks → kindAlignedB deps chunks → passesSufficeB deps chunks strict →
                 ∃ r, iterRun deps chunks strict = .ok r
-  Proved: `converges_no_straddle` (the full statement on the sub-domain `noStraddleB`: no row straddles a
+  Proved: `converges_no_straddle_partial` (the full statement on the sub-domain `noStraddleB`: no row straddles a
   chunk end — then `passesSufficeB` is not needed and several dependencies of one kind are covered) and
   `converges_partial` with `(deps.map (·.kind)).Nodup` in place of `kindAlignedB`.  Missing for the full
   statement: with early splits AND several dependencies of one kind, "same-kind inputs split identically"
@@ -171,7 +183,9 @@ theorem ok_passes_suffice (h : iterRun deps chunks strict = .ok r) (k : Nat) :
 /-- **rows inside their call** (bridge for C01 `iter_aligner_partial`): with valid law-abiding
 inputs (C07's sense) that start together, every row handed to `compute` has positive duration
 and lies inside `[call.start, call.stop]`, and `call.start ≤ call.stop`.  Any policy, any kinds,
-the dependencies may end at different times. -/
+the dependencies may end at different times.  (`validInputsB` is the property's premise "each dependency
+in its own law-abiding chunking" made precise — well-formed un-annotated chunks of one run — not a
+restriction of its quantifier; without it the constructor checks only the first row and the last 500.) -/
 theorem rows_inside_call {rid : String} {T0 : Int} (hv : validInputsB rid chunks = true)
     (hT : StartAt T0 chunks) (h : iterRun deps chunks strict = .ok r) :
     ∀ c ∈ r.calls, c.start ≤ c.stop ∧
@@ -191,8 +205,11 @@ theorem rows_inside_call_dep {rid : String} {T0 : Int} (hv : validInputsB rid ch
   · simp at hrow
 
 /-- **the last call ends at the run end**: if all dependencies end at `T1` (`endAtB`), the last call
-ends at `T1` and no buffer keeps a row — under EITHER policy.  (Without the same-end hypothesis
-this is false, see the `longEmptyB` example below.) -/
+ends at `T1` and no buffer keeps a row — under EITHER policy.  The same-end hypothesis is the property's
+own case split, not a restriction: C08 says that dependencies ending at different times (with
+undeliverable rows) RAISE — that half is `no_silent_drop` / `saved_plugins_drop_nothing`, which need no
+such hypothesis; this theorem is the other half.  (Without the hypothesis the statement is false of the
+code and not demanded by the property, see the `longEmptyB` example below.) -/
 theorem last_call_ends_at_run_end {rid : String} {T0 T1 : Int} (hv : validInputsB rid chunks = true)
     (hT : StartAt T0 chunks) (he : endAtB T1 chunks = true) (h : iterRun deps chunks strict = .ok r) :
     lastStop T0 r.calls = T1 ∧ ∀ l ∈ r.leftover, l = [] :=
@@ -200,7 +217,9 @@ theorem last_call_ends_at_run_end {rid : String} {T0 T1 : Int} (hv : validInputs
 
 /-- **the calls tile the run** `[T0, T1]`: at least one call, the first starts at `T0`, each next one
 where the previous ended, none has negative length, the last ends at `T1`; and (with
-`rows_once_in_order`, leftover empty) every input row is in exactly one of them. -/
+`rows_once_in_order`, leftover empty) every input row is in exactly one of them.  Hypotheses as in
+`last_call_ends_at_run_end`: the property's premises (law-abiding chunkings, same start) and its own
+same-end case; holds for every successful run, any kinds, either policy.  (Name frozen: C01 imports it.) -/
 theorem calls_tile_run {rid : String} {T0 T1 : Int} (hlen : chunks.length = deps.length)
     (hv : validInputsB rid chunks = true) (hT : StartAt T0 chunks) (he : endAtB T1 chunks = true)
     (h : iterRun deps chunks strict = .ok r) :
@@ -230,9 +249,9 @@ either policy, the calls tile `[T0, T1]` and every row is handed over — PROVID
 Read that hypothesis for what it is: it is NOT a condition on the shape of the input but the model's own
 run ("ten passes give the same outcome as a pass budget that always suffices"); since the large-budget
 run is total (`Strax.Align.iterRunP_total`), the content of this theorem is "the algorithm is total
-except for the literal 10" (D9).  Structural sufficient conditions: `converges_no_straddle` (no row
+except for the literal 10" (D9).  Structural sufficient conditions: `converges_no_straddle_partial` (no row
 straddles a chunk end: the loop never runs; also covers several dependencies of ONE kind) and
-`converges_few_rows` (≤ 8 rows).  Excluded by the hypotheses: dependencies of one kind (`hk`), runs that
+`converges_few_rows_partial` (≤ 8 rows).  Excluded by the hypotheses: dependencies of one kind (`hk`), runs that
 end at different times or with a zero-duration last chunk (`he`, D16), annotated (superrun) chunks (`hv`). -/
 theorem converges_partial {rid : String} {T0 T1 : Int} (hlen : chunks.length = deps.length)
     (hdeps : deps ≠ []) (hv : validInputsB rid chunks = true) (hT : StartAt T0 chunks)
@@ -255,14 +274,15 @@ theorem converges_partial {rid : String} {T0 T1 : Int} (hlen : chunks.length = d
   obtain ⟨t1, t2⟩ := last_call_ends_at_run_end hv hT he hrun
   exact ⟨r, hrun, by unfold iterModel; rw [hrun], t1, t2⟩
 
-/-- **totality from a structural condition on the input** (any kinds, several dependencies of one kind
+/-- **totality from a structural condition on the input — `_partial`: `noStraddleB` cuts the property's
+"rows of one kind straddling chunk boundaries of another" out of the quantifier** (any kinds, several dependencies of one kind
 included): valid law-abiding inputs that start at `T0` and end at `T1`, every chunk of the kind of its
 dependency, same-kind dependencies interval-equal (`kindAlignedB`), and no row of any dependency
 straddling the end of a chunk of any dependency (`noStraddleB`, e.g. dependencies that share their
 cuts, or rows that never cross a cut).  Then no early split ever happens, the re-trim loop exits at its
 first check (ten passes are nine more than needed), `Chunk.merge` succeeds on the same-kind inputs, the
 run succeeds under either policy, the calls tile `[T0, T1]` and nothing is left over. -/
-theorem converges_no_straddle {rid : String} {T0 T1 : Int} (hlen : chunks.length = deps.length)
+theorem converges_no_straddle_partial {rid : String} {T0 T1 : Int} (hlen : chunks.length = deps.length)
     (hdeps : deps ≠ []) (hv : validInputsB rid chunks = true) (hT : StartAt T0 chunks)
     (he : endAtB T1 chunks = true) (hns : noStraddleB chunks = true)
     (hck : chunkKindsB deps chunks = true) (hka : kindAlignedB deps chunks = true) :
@@ -274,8 +294,9 @@ theorem converges_no_straddle {rid : String} {T0 T1 : Int} (hlen : chunks.length
   obtain ⟨t1, t2⟩ := last_call_ends_at_run_end hv hT he hrun
   exact ⟨r, hrun, by unfold iterModel; rw [hrun], t1, t2⟩
 
-/-- a (weak) structural sufficient condition for the ten passes: at most eight input rows in total -/
-theorem converges_few_rows {rid : String} {T0 T1 : Int} (hlen : chunks.length = deps.length)
+/-- a (weak) structural sufficient condition for the ten passes: at most eight input rows in total
+(`_partial`: small inputs only, pairwise different kinds) -/
+theorem converges_few_rows_partial {rid : String} {T0 T1 : Int} (hlen : chunks.length = deps.length)
     (hdeps : deps ≠ []) (hv : validInputsB rid chunks = true) (hT : StartAt T0 chunks)
     (he : endAtB T1 chunks = true) (hk : (deps.map (fun d => d.kind)).Nodup)
     (hfew : (chunks.map allRows).flatten.length + 2 ≤ maxPasses) :
@@ -331,8 +352,9 @@ theorem ten_pass_counterexample :
       iterModel witnessDeps [brickA, brickB] false = .error .runtimeError := by
   decide +kernel
 
-/-- … although four more passes would have delivered every row in two aligned, adjacent calls. -/
-theorem ten_pass_would_converge :
+/-- … although four more passes would have delivered every row in two aligned, adjacent calls
+(concrete witness by evaluation). -/
+theorem ten_pass_would_converge_witness :
     passesSufficeB witnessDeps [brickA, brickB] true = false ∧
       (iterRunP 14 witnessDeps [brickA, brickB] true).toOption.map (fun r => r.calls.map (fun c => (c.start, c.stop)))
         = some [(0, 0), (0, 13)] := by
@@ -349,7 +371,7 @@ example : validInputsB "0" [plainA, plainB] = true ∧ endAtB 10 [plainA, plainB
     passesSufficeB witnessDeps [plainA, plainB] true = true ∧
     kindAlignedB witnessDeps [plainA, plainB] = true := by decide +kernel
 
-/-- `converges_no_straddle` on a two-kind, three-dependency instance (two dependencies of one kind in
+/-- `converges_no_straddle_partial` on a two-kind, three-dependency instance (two dependencies of one kind in
 different chunkings; cuts at 5 / none / 3 and 5; no row crosses 3 or 5): the hypotheses hold by evaluation,
 the outcome follows from the theorem (the kernel cannot evaluate `Chunk.merge`'s merge sort itself) -/
 example :
@@ -359,7 +381,7 @@ example :
     let ds : List Dep := [⟨"a1", "ka"⟩, ⟨"a2", "ka"⟩, ⟨"b", "kb"⟩]
     ∃ r, iterRun ds [a1, a2, b] true = .ok r ∧ lastStop 0 r.calls = 10 := by
   intro a1 a2 b ds
-  obtain ⟨r, h1, _, h3, _⟩ := converges_no_straddle (rid := "0") (T0 := 0) (T1 := 10) (deps := ds)
+  obtain ⟨r, h1, _, h3, _⟩ := converges_no_straddle_partial (rid := "0") (T0 := 0) (T1 := 10) (deps := ds)
     (chunks := [a1, a2, b]) (strict := true) (by decide +kernel) (by decide +kernel) (by decide +kernel)
     (by decide +kernel) (by decide +kernel) (by decide +kernel) (by decide +kernel) (by decide +kernel)
   exact ⟨r, h1, h3⟩
